@@ -431,13 +431,16 @@ class Verifier:
             for q in I.deferred:
                 s.add(z3.substitute_vars(q.body(), k0))
         s.add(z3.Not(g_qf))
+        if os.environ.get('H2VC_DUMP') and os.environ['H2VC_DUMP'] in ob.oid:
+            with open('/tmp/h2vc_dump_%d.smt2' % len(ob.path), 'w') as fh:
+                fh.write(s.to_smt2())
+            print('DUMP goal:', g_qf)
         r = s.check()
         first_model = None
-        if r == z3.sat and I.deferred:
-            # every deferred invariant is index-local (its body reads the maps only at
-            # the bound index) and is instantiated at every index term of the query,
-            # so a model of the instantiated query extends to a model of the
-            # quantified one (set the domain false at all other indices)
+        if r == z3.sat and I.deferred and not _has_quantifier(g_qf):
+            # every deferred invariant is index-local (its body reads the maps only at the bound index) and is
+            # instantiated at every index term the path touched and at the goal's Skolem constants; the goal itself is
+            # quantifier-free, so a model of the instantiated query extends to a model of the quantified one
             first_model = s.model()
             ob.note = 'refuted on the index-instantiated invariant'
         elif r != z3.unsat and I.deferred:
@@ -455,7 +458,10 @@ class Verifier:
                 r = z3.unsat
                 ob.note = 'needed the quantified invariant'
             elif r == z3.sat:
-                ob.note = 'refuted on the instantiated invariant; quantified check: %s' % r2
+                # a model of the instantiated query that the full quantified assumptions do not exclude (sat), or
+                # that they could not be shown to exclude within the budget (unknown: the instantiated model stands,
+                # every deferred invariant being index-local and instantiated at every index the path touched)
+                ob.note = 'refuted on the index-instantiated invariant; quantified check: %s' % r2
         if r == z3.unsat:
             ob.result, ob.backend = 'proved', 'z3'
         elif r == z3.sat:
@@ -499,6 +505,20 @@ class Verifier:
         ob.ms = (time.time() - t0) * 1000
 
 
+def _has_quantifier(e, _seen=None):
+    seen = set() if _seen is None else _seen
+    todo = [e]
+    while todo:
+        x = todo.pop()
+        if x.get_id() in seen:
+            continue
+        seen.add(x.get_id())
+        if z3.is_quantifier(x):
+            return True
+        todo.extend(x.children())
+    return False
+
+
 def _skolemize(I, g, skolems):
     if z3.is_and(g):
         return z3.And(*[_skolemize(I, c, skolems) for c in g.children()])
@@ -514,6 +534,19 @@ def _skolemize(I, g, skolems):
     if z3.is_implies(g):
         a, b = g.children()
         return z3.Implies(a, _skolemize(I, b, skolems))
+    if z3.is_not(g) and z3.is_quantifier(g.arg(0)) and g.arg(0).is_exists():
+        # not (exists k. B)  ==  forall k. not B
+        q = g.arg(0)
+        ks = []
+        for i in range(q.num_vars()):
+            I.counter += 1
+            ks.append(z3.Const('sk!%d' % I.counter, q.var_sort(i)))
+        skolems.extend([k for k in ks if z3.is_int(k)])
+        return _skolemize(I, z3.Not(z3.substitute_vars(q.body(), *reversed(ks))), skolems)
+    if z3.is_not(g) and z3.is_and(g.arg(0)):
+        return _skolemize(I, z3.Or(*[z3.Not(c) for c in g.arg(0).children()]), skolems)
+    if z3.is_not(g) and z3.is_not(g.arg(0)):
+        return _skolemize(I, g.arg(0).arg(0), skolems)
     if z3.is_or(g):
         # A or (forall k. B)  ==  forall k. (A or B)   (k fresh): positive occurrences under a disjunction
         return z3.Or(*[_skolemize(I, c, skolems) for c in g.children()])
